@@ -119,6 +119,14 @@ pub fn run(op: &str, case: &Value) -> Result<Value> {
             }
             json!({"ok": out})
         }
+        "penalty_method" | "uniform_penalty_method" => {
+            let inst: v1::Instance = msg(&case["instance"])?;
+            let r = if op == "penalty_method" { inst.penalty_method() } else { inst.uniform_penalty_method() };
+            match r {
+                Ok(p) => json!({"ok": {"parametric": enc(&p)}}),
+                Err(e) => errv(e),
+            }
+        }
         _ => bail!("unknown op {op}"),
     })
 }
